@@ -71,7 +71,9 @@ impl Numeric {
                 )
             }
             Parity::Float(left, right) => {
-                (Numeric::Float(left / right), Numeric::Float(left % right))
+                // The quotient is an integer, like in the rational case.
+                let div = (left / right).trunc();
+                (Numeric::Float(div), Numeric::Float(left - right * div))
             }
         }
     }
